@@ -170,6 +170,19 @@ def run(tier, seed, replay=None):
             os.makedirs(du, exist_ok=True)
             with open(os.path.join(du, "uni.py"), "w", encoding="utf8") as f:
                 f.write("def caf\u00e9(\u00fc):\n    s = '\u00e9\u00e9'\n    return s + '\u65e5\u672c'\n")
+            # byte-identical files in different languages (a header kept as .h and .hpp, one text as .js and .ts, two empty
+            # files): each must be analysed as what ITS name says, whichever of the twins the walk meets first
+            # (seeded change C06-10: results shared between files of equal checksum)
+            twin_c = "int area(int w, int h) {\n    int r = w * h;\n    return r;\n}\nint twice(int v) {\n    return v + v;\n}\n"
+            twin_js = "function area(w, h) {\n    const r = w * h;\n    return r;\n}\n"
+            twins = {}
+            dt = os.path.join(root, rng.choice(["", "a", "b", "c"]))
+            os.makedirs(dt, exist_ok=True)
+            for nm, text, lang_name in (("geometry.h", twin_c, "C"), ("geometry.hpp", twin_c, "C++"), ("shape.js", twin_js, "JavaScript"),
+                                        ("shape.ts", twin_js, "TypeScript"), ("__init__.py", "", "Python"), ("stub.js", "", "JavaScript")):
+                with open(os.path.join(dt, nm), "w") as f:
+                    f.write(text)
+                twins[os.path.relpath(os.path.join(dt, nm), root)] = lang_name
             # order-sensitive exclusions in the configuration file: everything beneath one directory except one file
             # (gitignore semantics: the last matching pattern decides, so the ORDER of the two patterns matters)
             excl = []
@@ -201,6 +214,11 @@ def run(tier, seed, replay=None):
                 finally:
                     Scanner.os = orig_os
                 reports.append(rep)
+                for tp, tl in twins.items():
+                    e = rep["codebase"]["files"].get(tp)
+                    if e is not None and e.get("language") != tl:
+                        chk.violation({"tree": t, "file": tp, "order": perm},
+                                      f"{tp} (one of several byte-identical files) is reported as {e.get('language')}, its name says {tl}")
             # ... and by a fresh process that has analysed nothing before (state leaking between scans)
             shutil.rmtree(os.path.join(root, ".codelimit_cache"), ignore_errors=True)
             env = dict(os.environ, PYTHONPATH=REPO, LC_ALL="C", PYTHONDONTWRITEBYTECODE="1", COLUMNS="200")
